@@ -135,6 +135,10 @@ mod share;
 #[cfg_attr(feature = "unstable", allow(missing_docs))]
 pub mod fuzz_bridge;
 
+#[cfg(feature = "hyperium_h2_verif")]
+#[allow(missing_docs, missing_debug_implementations)]
+pub mod verif_hooks;
+
 pub use crate::error::{Error, Reason};
 pub use crate::share::{FlowControl, Ping, PingPong, Pong, RecvStream, SendStream, StreamId};
 
